@@ -369,4 +369,131 @@ theorem shape_el {r0 : RS} (hcv : Canvas r0.g) {i : Nat} (hi : i < r0.g.size.row
   rw [C07.modifyCurrentRow_eq _ _ (r := Ri) (by rw [hpos]; exact hrow) (by rw [hRi]; exact hloop)]
   simp [shape, List.set_set]
 
+/-! ### wrap-through: the line above is wrapped onto this one -/
+
+/-- the start state with the line above flagged as wrapped -/
+def wrapBase (r0 : RS) (i : Nat) (Rp : Row) : RS :=
+  { r0 with g := { r0.g with rows := r0.g.rows.set (i - 1) (Rp.wrap true) } }
+
+theorem wrapBase_canvas {r0 : RS} (h : Canvas r0.g) (i : Nat) {Rp : Row} (hp : r0.g.rows[i - 1]? = some Rp) :
+    Canvas (wrapBase r0 i Rp).g := by
+  refine ⟨h.rows_pos, h.cols_pos, h.rows_u16, h.cols_u16, h.top, h.bottom, h.origin, ?_, ?_⟩
+  · simp [wrapBase, h.alloc]
+  · intro r hr
+    simp only [wrapBase] at hr ⊢
+    rcases List.mem_or_eq_of_mem_set hr with hr | rfl
+    · exact h.width r hr
+    · exact h.width Rp (List.mem_of_getElem? hp)
+
+/-- the deferred wrap, on the receiver state -/
+theorem shape_wrapNext {r0 : RS} (i : Nat) (hi1 : 1 ≤ i) (Ri Rp : Row) (c : Nat) (pen : Attrs) :
+    wrapNext (shape r0 i Ri ⟨i - 1, c⟩ pen).g Rp = (shape (wrapBase r0 i Rp) i Ri ⟨i, 0⟩ pen).g := by
+  simp only [wrapNext, shape, wrapBase]
+  have : (r0.g.rows.set i Ri).set (i - 1) (Rp.wrap true) = (r0.g.rows.set (i - 1) (Rp.wrap true)).set i Ri :=
+    List.set_comm _ _ (by omega)
+  rw [this, show i - 1 + 1 = i by omega]
+
+theorem shape_prev_row {r0 : RS} (i : Nat) (hi1 : 1 ≤ i) (Ri Rp : Row) (pos : Pos) (pen : Attrs)
+    (hp : r0.g.rows[i - 1]? = some Rp) : (shape r0 i Ri pos pen).g.rows[i - 1]? = some Rp := by
+  simp only [shape, List.getElem?_set]
+  rw [if_neg (by omega)]; exact hp
+
+/-- typing the characters of a cell at the pending-wrap position of the line above = typing them at the
+start of this line after the wrap has been recorded -/
+theorem typeChars_wraps {r0 : RS} (hcv : Canvas r0.g) {i : Nat} (hi1 : 1 ≤ i) (hi : i < r0.g.size.rows)
+    {Ri Rp : Row} (hl : Ri.cells.length = r0.g.size.cols) (hp : r0.g.rows[i - 1]? = some Rp)
+    {last : Cell} (hlast : Rp.cells[r0.g.size.cols - 1]? = some last) (hocc : (last.hasContents || last.cont) = true)
+    (pen : Attrs) (f : Nat) (zs : List Nat) (hw1 : 1 ≤ (W f).getD 1) (hwc : (W f).getD 1 ≤ r0.g.size.cols)
+    (hnc : ¬ (W f = none ∧ f < 256)) :
+    typeChars W pen (f :: zs) (shape r0 i Ri ⟨i - 1, r0.g.size.cols⟩ pen).g =
+      typeChars W pen (f :: zs) (shape (wrapBase r0 i Rp) i Ri ⟨i, 0⟩ pen).g := by
+  rw [typeChars_cons, typeChars_cons]
+  have hcv' := shape_canvas hcv hl (⟨i - 1, r0.g.size.cols⟩ : Pos) pen (i := i)
+  rw [text_wraps W hcv' pen f _ Rp last rfl hw1 hwc hnc rfl (shape_prev_row i hi1 Ri Rp _ pen hp)
+    (by simp only [shape]; omega) hlast hocc]
+  rw [shape_wrapNext i hi1 Ri Rp _ pen]
+
+/-! ### a line with some plain, not yet blanked cells in `[e, hi)` (a space typed to force a wrap) -/
+
+structure LineX (src : List Cell) (e hi : Nat) (Ri : Row) : Prop where
+  unwrapped : Ri.wrapped = false
+  len22 : ∀ c ∈ Ri.cells, c.contents.length = 22
+  length : Ri.cells.length = src.length
+  agree : ∀ k (hk : k < src.length), k < e → (Ri.cells.map view)[k]? = some (view src[k])
+  plain : ∀ k, e ≤ k → k < hi → Ri.cells[k]?.all (fun c => !c.wide && !c.cont) = true
+  blank : ∀ k, hi ≤ k → k < src.length → (Ri.cells.map view)[k]? = some blankV
+
+theorem Line.toX {src : List Cell} {e : Nat} {Ri : Row} (h : Line src e Ri) (he : e ≤ src.length) : LineX src e e Ri := by
+  refine ⟨h.unwrapped, h.len22, h.length he, ?_, fun k h1 h2 => by omega, ?_⟩
+  · intro k hk hke
+    rw [h.views]; have := expect_get src e he k hk; unfold expect at this; rw [this, if_pos hke]
+  · intro k hk hkl
+    rw [h.views]; have := expect_get src e he k hkl; unfold expect at this; rw [this, if_neg (by omega)]
+
+theorem LineX.mono {src : List Cell} {e hi hi' : Nat} {Ri : Row} (h : LineX src e hi Ri) (hh : hi ≤ hi') :
+    LineX src e hi' Ri := by
+  refine ⟨h.unwrapped, h.len22, h.length, h.agree, ?_, fun k h1 h2 => h.blank k (by omega) h2⟩
+  intro k h1 h2
+  by_cases hk : k < hi
+  · exact h.plain k h1 hk
+  · by_cases hkl : k < src.length
+    · have hb := h.blank k (by omega) hkl
+      have hkl' : k < Ri.cells.length := by rw [h.length]; exact hkl
+      simp only [List.getElem?_map, List.getElem?_eq_getElem hkl', Option.map_some, Option.some.injEq] at hb
+      obtain ⟨p1, p2⟩ := view_plain hb
+      simp [List.getElem?_eq_getElem hkl', p1, p2]
+    · rw [List.getElem?_eq_none (by rw [h.length]; omega)]; rfl
+
+/-- blanking `[e, hi)` of such a line with the attributes the source cells there have -/
+theorem LineX.clear {src : List Cell} {e hi : Nat} {Ri : Row} (h : LineX src e hi Ri) (a : Attrs)
+    (he : e ≤ hi) (hhi : hi ≤ src.length) (hsrc : ∀ k (hk : k < src.length), e ≤ k → k < hi → view src[k] = blankA a) :
+    Line src hi { cells := clearRange Ri.cells e hi a, wrapped := false } := by
+  refine ⟨rfl, ?_, clearRange_len22 _ _ _ _ h.len22⟩
+  show (clearRange Ri.cells e hi a).map view = expect src hi
+  rw [clearRange_views]
+  apply List.ext_getElem?
+  intro k
+  by_cases hk : k < src.length
+  · rw [List.getElem?_mapIdx, expect_get src hi hhi k hk]
+    have hkl : k < (Ri.cells.map view).length := by simp [h.length]; exact hk
+    rw [List.getElem?_eq_getElem hkl]
+    simp only [Option.map_some, Option.some.injEq]
+    by_cases h1 : e ≤ k ∧ k < hi
+    · rw [if_pos h1, if_pos h1.2, hsrc k hk h1.1 h1.2]
+    · rw [if_neg h1]
+      by_cases h2 : k < e
+      · rw [if_pos (by omega)]
+        have := h.agree k hk h2
+        rw [List.getElem?_eq_getElem hkl] at this
+        exact Option.some.inj this
+      · rw [if_neg (by omega)]
+        have := h.blank k (by omega) hk
+        rw [List.getElem?_eq_getElem hkl] at this
+        exact Option.some.inj this
+  · rw [List.getElem?_eq_none (by simp [h.length]; omega),
+      List.getElem?_eq_none (by simp [expect_length src hi hhi]; omega)]
+
+/-- ECH / EL on such a line (`hi'` = end of the erased range, which covers the plain cells) -/
+theorem shape_eraseX {r0 : RS} (hcv : Canvas r0.g) {i : Nat} (hi : i < r0.g.size.rows) {src : List Cell}
+    {e hx : Nat} {Ri : Row} (hline : LineX src e hx Ri) (hi' : Nat) (a : Attrs)
+    (hxe : e ≤ hi') (hxh : hx ≤ hi') (hh : hi' ≤ src.length)
+    (hv : ∀ k (hk : k < src.length), e ≤ k → k < hi' → view src[k] = blankA a) :
+    ∃ Ri', (shape r0 i Ri ⟨i, e⟩ a).g.modifyCurrentRow
+        (fun row => forRange e hi' (fun col r => r.erase col a) row) = .ok (shape r0 i Ri' ⟨i, e⟩ a).g ∧
+      Line src hi' Ri' := by
+  have hrow := shape_row hcv hi Ri ⟨i, e⟩ a
+  have hRi : Ri = { cells := Ri.cells, wrapped := false } := by
+    obtain ⟨cs, w⟩ := Ri
+    have := hline.unwrapped
+    simp only at this
+    rw [this]
+  have hl2 := hline.mono hxh
+  have hloop := erase_plain_range Ri.cells e a (hi' - e) (by rw [hline.length]; omega)
+    (fun k h1 h2 => hl2.plain k h1 (by omega))
+  rw [show e + (hi' - e) = hi' by omega] at hloop
+  refine ⟨{ cells := clearRange Ri.cells e hi' a, wrapped := false }, ?_, hl2.clear a hxe hh hv⟩
+  have hpos : (shape r0 i Ri ⟨i, e⟩ a).g.pos = ⟨i, e⟩ := rfl
+  rw [C07.modifyCurrentRow_eq _ _ (r := Ri) (by rw [hpos]; exact hrow) (by rw [hRi]; exact hloop)]
+  simp [shape, List.set_set]
+
 end Vt.Recv
